@@ -43,7 +43,7 @@ package workspace
 
 //@ pred D5(a, b, c, d, e) := a != b && a != c && a != d && a != e && b != c && b != d && b != e && c != d && c != e && d != e
 //@ pred NotFi(m, fi) := m != fi.AccountCounts && m != fi.PayeeCounts && m != fi.CommodityCounts && m != fi.TagCounts
-//@ pred SepInner(m, idx, fi) := m != idx.accountCounts && m != idx.payeeCounts && m != idx.commodityCounts && m != idx.tagCounts && m != idx.dateCounts && m != fi.AccountCounts && m != fi.PayeeCounts && m != fi.CommodityCounts && m != fi.TagCounts
+//@ pred SepInner(m, idx, fi) := m != idx.accountCounts && m != idx.payeeCounts && m != idx.commodityCounts && m != idx.tagCounts && m != idx.dateCounts && (m == nil || (m != fi.AccountCounts && m != fi.PayeeCounts && m != fi.CommodityCounts && m != fi.TagCounts))
 //@ pred InnerSep(idx, fi) := forall t string :: {idx.tagValueCounts[t]} SepInner(idx.tagValueCounts[t], idx, fi)
 //@ pred WI(idx, fi) := idx.tagValueCounts != nil && idx.transactionsByKey != nil && InnerSep(idx, fi) && WI0(idx, fi)
 //@ pred WI0(idx, fi) := idx != nil && fi != nil && idx.accountCounts != nil && idx.payeeCounts != nil && idx.commodityCounts != nil && idx.tagCounts != nil && idx.dateCounts != nil && idx.fileIndexes != nil && idx.payeeTemplates != nil && D5(idx.accountCounts, idx.payeeCounts, idx.commodityCounts, idx.tagCounts, idx.dateCounts) && NotFi(idx.accountCounts, fi) && NotFi(idx.payeeCounts, fi) && NotFi(idx.commodityCounts, fi) && NotFi(idx.tagCounts, fi) && NotFi(idx.dateCounts, fi) && idx.payeeTemplates != fi.PayeeTemplates
@@ -114,7 +114,8 @@ package workspace
 //@   ensures [date] forall k string :: idx.dateCounts[k] == old(idx.dateCounts[k]) - cnt(fi.Dates, len(fi.Dates), k)
 //@   ensures [tmpl_removed] forall p string :: has(fi.PayeeTemplates, p) ==> !has(idx.payeeTemplates, p)
 //@   ensures [tmpl_kept] forall p string :: !has(fi.PayeeTemplates, p) ==> (has(idx.payeeTemplates, p) <==> old(has(idx.payeeTemplates, p))) && idx.payeeTemplates[p] == old(idx.payeeTemplates[p])
-//@   ensures [files] !has(idx.fileIndexes, path)
+//@   ensures [files] !has(idx.fileIndexes, path) && (forall p string :: {idx.fileIndexes[p]} p != path ==> idx.fileIndexes[p] == old(idx.fileIndexes[p]) && (has(idx.fileIndexes, p) <==> old(has(idx.fileIndexes, p))))
+//@   ensures [inner_prov] forall t string :: {idx.tagValueCounts[t]} idx.tagValueCounts[t] == 0 || idx.tagValueCounts[t] == old(idx.tagValueCounts[t])
 //@   modifies idx.accountCounts[*], idx.payeeCounts[*], idx.commodityCounts[*], idx.tagCounts[*], idx.dateCounts[*], idx.payeeTemplates[*], idx.fileIndexes[*], idx.tagValueCounts[*], idx.tagValueCounts[*][*], idx.transactionsByKey[*]
 //@   modifies idx.accounts, idx.payees, idx.commodities, idx.tags, idx.tagValues, idx.dates
 //@   loop 1 modifies idx.accountCounts[*]
@@ -147,6 +148,33 @@ package workspace
 //@   loop 9 modifies idx.payeeTemplates[*]
 //@   loop 9 invariant forall p string :: iterseen[p] ==> has(fi.PayeeTemplates, p) && !has(idx.payeeTemplates, p)
 //@   loop 9 invariant forall p string :: !iterseen[p] ==> (has(idx.payeeTemplates, p) <==> old(has(idx.payeeTemplates, p))) && idx.payeeTemplates[p] == old(idx.payeeTemplates[p])
+
+//@ pred RemOK(idx, e) := e == nil || (WI(idx, e) && NonNeg(e.AccountCounts) && NonNeg(e.PayeeCounts) && NonNeg(e.CommodityCounts) && NonNeg(e.TagCounts) && Contained(idx.accountCounts, e.AccountCounts) && Contained(idx.payeeCounts, e.PayeeCounts) && Contained(idx.commodityCounts, e.CommodityCounts) && Contained(idx.tagCounts, e.TagCounts) && (forall k string :: idx.dateCounts[k] >= cnt(e.Dates, len(e.Dates), k)))
+
+//@ func (*WorkspaceIndex).FileIndex
+//@   props C12
+//@   effects none
+//@   requires idx != nil
+//@   ensures [get] result == idx.fileIndexes[path]
+
+// Replacing the entry of a file: afterwards the table maps path to fi and every other entry is untouched.
+//@ func (*WorkspaceIndex).SetFileIndex
+//@   props C12
+//@   requires idx != nil && (path != "" && fi != nil ==> WI(idx, fi) && RemOK(idx, idx.fileIndexes[path]))
+//@   ensures [C12:set] path != "" && fi != nil ==> idx.fileIndexes[path] == fi
+//@   ensures [C12:others] forall p string :: {idx.fileIndexes[p]} p != path ==> idx.fileIndexes[p] == old(idx.fileIndexes[p])
+//@   ensures [noop] path == "" || fi == nil ==> idx.fileIndexes[path] == old(idx.fileIndexes[path])
+//@   ensures [inner_prov] forall t string :: {idx.tagValueCounts[t]} idx.tagValueCounts[t] == 0 || idx.tagValueCounts[t] == old(idx.tagValueCounts[t]) || fresh(idx.tagValueCounts[t])
+//@   modifies idx.accountCounts[*], idx.payeeCounts[*], idx.commodityCounts[*], idx.tagCounts[*], idx.dateCounts[*], idx.payeeTemplates[*], idx.fileIndexes[*], idx.tagValueCounts[*], idx.tagValueCounts[*][*], idx.transactionsByKey[*]
+//@   modifies idx.accounts, idx.payees, idx.commodities, idx.tags, idx.tagValues, idx.dates
+
+//@ func (*WorkspaceIndex).RemoveFile
+//@   props C12
+//@   requires idx != nil && idx.fileIndexes != nil && RemOK(idx, idx.fileIndexes[path])
+//@   ensures [C12:removed] idx.fileIndexes[path] == nil
+//@   ensures [C12:others] forall p string :: {idx.fileIndexes[p]} p != path ==> idx.fileIndexes[p] == old(idx.fileIndexes[p])
+//@   modifies idx.accountCounts[*], idx.payeeCounts[*], idx.commodityCounts[*], idx.tagCounts[*], idx.dateCounts[*], idx.payeeTemplates[*], idx.fileIndexes[*], idx.tagValueCounts[*], idx.tagValueCounts[*][*], idx.transactionsByKey[*]
+//@   modifies idx.accounts, idx.payees, idx.commodities, idx.tags, idx.tagValues, idx.dates
 
 //@ func ghostAddThenRemove
 //@   props C12
@@ -188,3 +216,45 @@ func ghostAddOnly(idx *WorkspaceIndex, path string, fi *FileIndex) {
 //@ trusted (*Workspace).GetDeclaredCommodities
 //@   ensures result == wsCom(w)
 //@   modifies w.cachedCommodities
+
+// ---- Workspace level: an update of one file drops every memoised view (declared accounts/commodities, formats) ----
+
+//@ pred FIFresh(fi) := fi != nil && fresh(fi) && (fi.AccountCounts == nil || fresh(fi.AccountCounts)) && (fi.PayeeCounts == nil || fresh(fi.PayeeCounts)) && (fi.CommodityCounts == nil || fresh(fi.CommodityCounts)) && (fi.TagCounts == nil || fresh(fi.TagCounts)) && (fi.PayeeTemplates == nil || fresh(fi.PayeeTemplates))
+//@ pred IdxWF(idx) := idx != nil && idx.tagValueCounts != nil && idx.transactionsByKey != nil && idx.accountCounts != nil && idx.payeeCounts != nil && idx.commodityCounts != nil && idx.tagCounts != nil && idx.dateCounts != nil && idx.fileIndexes != nil && idx.payeeTemplates != nil && D5(idx.accountCounts, idx.payeeCounts, idx.commodityCounts, idx.tagCounts, idx.dateCounts) && (forall t string :: {idx.tagValueCounts[t]} idx.tagValueCounts[t] != idx.accountCounts && idx.tagValueCounts[t] != idx.payeeCounts && idx.tagValueCounts[t] != idx.commodityCounts && idx.tagValueCounts[t] != idx.tagCounts && idx.tagValueCounts[t] != idx.dateCounts)
+
+//@ trusted BuildFileIndexFromContent
+//@   ensures FIFresh(result0)
+//@ trusted (*Workspace).updateIncludeEdgesLocked
+//@   modifies w.includeGraph[*], w.reverseGraph[*]
+//@ trusted (*Workspace).updateResolvedLocked
+//@   modifies w.resolved
+//@ trusted sameStringSlice
+//@   effects none
+//@ trusted (*Workspace).refreshIncludeTreeLocked
+//@   ensures old(w.cachedAccounts) == nil ==> w.cachedAccounts == nil
+//@   ensures old(w.cachedCommodities) == nil ==> w.cachedCommodities == nil
+//@   ensures old(w.cachedFormats) == nil ==> w.cachedFormats == nil
+//@   modifies w.cachedAccounts, w.cachedCommodities, w.cachedFormats, w.resolved, w.includeGraph[*], w.reverseGraph[*]
+//@   modifies w.index.accountCounts[*], w.index.payeeCounts[*], w.index.commodityCounts[*], w.index.tagCounts[*], w.index.dateCounts[*], w.index.payeeTemplates[*], w.index.fileIndexes[*], w.index.tagValueCounts[*], w.index.tagValueCounts[*][*], w.index.transactionsByKey[*]
+//@   modifies w.index.accounts, w.index.payees, w.index.commodities, w.index.tags, w.index.tagValues, w.index.dates
+
+//@ func (*Workspace).clearCachesLocked
+//@   props C12 C04 C18
+//@   effects noalloc
+//@   requires w != nil
+//@   ensures [C12,C04,C18:all_caches_dropped] w.cachedFormats == nil && w.cachedCommodities == nil && w.cachedAccounts == nil
+//@   modifies w.cachedFormats, w.cachedCommodities, w.cachedAccounts
+
+//@ func (*Workspace).isWorkspaceFileLocked
+//@   props C12
+//@   effects none
+//@   requires w != nil && w.index != nil
+
+// If the file's index entry was replaced, none of the memoised views survives the update.
+//@ func (*Workspace).UpdateFile
+//@   props C12 C04 C18
+//@   requires w != nil && (w.index != nil ==> IdxWF(w.index) && RemOK(w.index, w.index.fileIndexes[path]))
+//@   ensures [C12,C04,C18:caches_dropped_on_update] w.index != nil && fresh(w.index.fileIndexes[path]) ==> w.cachedAccounts == nil && w.cachedCommodities == nil && w.cachedFormats == nil
+//@   modifies w.cachedFormats, w.cachedCommodities, w.cachedAccounts, w.resolved, w.includeGraph[*], w.reverseGraph[*]
+//@   modifies w.index.accountCounts[*], w.index.payeeCounts[*], w.index.commodityCounts[*], w.index.tagCounts[*], w.index.dateCounts[*], w.index.payeeTemplates[*], w.index.fileIndexes[*], w.index.tagValueCounts[*], w.index.tagValueCounts[*][*], w.index.transactionsByKey[*]
+//@   modifies w.index.accounts, w.index.payees, w.index.commodities, w.index.tags, w.index.tagValues, w.index.dates
